@@ -411,7 +411,7 @@ PROPS = {
                       "under test: both must satisfy the function's bound, agree on NaN/inf class, and broadcast lanes must be identical; last-bit differences are counted.",
         "level_note": "Companion sets are derived from the any()/all() thresholds of the current kernels plus unstructured ones.",
         "design_ref": "DESIGN.md section 6 C13",
-        "jobs": [{"unit": "c01"}, {"unit": "c02"}, {"unit": "c06"}, {"unit": "c07"}, {"unit": "math", "timeout": {"quick": 1800, "thorough": 6 * 3600}}],
+        "jobs": [{"unit": "c01"}, {"unit": "c02"}, {"unit": "c03"}, {"unit": "c06"}, {"unit": "c07"}, {"unit": "math", "timeout": {"quick": 1800, "thorough": 6 * 3600}}],
         "rule": "each evaluation = one (op, lane k, companion set) comparison of the in-batch result with the broadcast result; distinct cell = (op, type, arch, lane, operand "
                 "classes) / (function, arch, companion class, lane); " + ALL22,
         "assumptions": COMMON_ASSUME,
